@@ -104,38 +104,42 @@ func diagStr(d hcl.Diagnostics) string {
 func TestC11_Value(t *testing.T) {
 	hx.Run(t, "C11", "Value", 40000,
 		"value from G-VAL (hostile strings, arbitrary-precision numbers, nulls, nested collections, keyword/non-identifier keys); non-trivial = contains an escape-relevant string, a keyword or non-identifier key, or a number outside float64/fractional; distinct by Go-syntax of the value",
-		func(c *hx.Case) {
-			t := c.T
-			v := gen.Value(gen.TypeOpts{Depth: 3}, gen.ValOpts{Nulls: 9, Hostile: true}).Draw(t, "v")
-			c.Set("value", v.GoString())
-			var f valFeat
-			scanValue(v, &f, 0)
-			f.classes(c)
-			var src []byte
-			c.Guard("TokensForValue", func() { src = hclwrite.TokensForValue(v).Bytes() })
-			c.Set("src", string(src))
-			if f.forFirstKey && c.Known("for-first-key") {
-				c.Done(false, "")
-				return
-			}
-			expr, diags := hclsyntax.ParseExpression(src, "gen.hcl", hcl.InitialPos)
-			if diags.HasErrors() {
-				c.Failf("parse-error", "generated source does not parse: %s", diagStr(diags))
-			}
-			got, diags := expr.Value(nil)
-			if diags.HasErrors() {
-				c.Failf("eval-error", "generated source does not evaluate: %s", diagStr(diags))
-			}
-			conv, err := convert.Convert(got, v.Type())
-			if err != nil {
-				c.Failf("convert-error", "evaluated %#v cannot convert to %#v: %s", got, v.Type(), err)
-			}
-			if !conv.RawEquals(v) {
-				c.Failf("value-mismatch", "read back %#v, want %#v", conv, v)
-			}
-			c.Done(f.escape || f.keyword || f.nonIdentKey || f.bigNum || f.fracNum, v.GoString())
-		})
+		caseC11Value)
 }
+
+func caseC11Value(c *hx.Case) {
+	t := c.T
+	v := gen.Value(gen.TypeOpts{Depth: 3}, gen.ValOpts{Nulls: 9, Hostile: true}).Draw(t, "v")
+	c.Set("value", v.GoString())
+	var f valFeat
+	scanValue(v, &f, 0)
+	f.classes(c)
+	var src []byte
+	c.Guard("TokensForValue", func() { src = hclwrite.TokensForValue(v).Bytes() })
+	c.Set("src", string(src))
+	if f.forFirstKey && c.Known("for-first-key") {
+		c.Done(false, "")
+		return
+	}
+	expr, diags := hclsyntax.ParseExpression(src, "gen.hcl", hcl.InitialPos)
+	if diags.HasErrors() {
+		c.Failf("parse-error", "generated source does not parse: %s", diagStr(diags))
+	}
+	got, diags := expr.Value(nil)
+	if diags.HasErrors() {
+		c.Failf("eval-error", "generated source does not evaluate: %s", diagStr(diags))
+	}
+	conv, err := convert.Convert(got, v.Type())
+	if err != nil {
+		c.Failf("convert-error", "evaluated %#v cannot convert to %#v: %s", got, v.Type(), err)
+	}
+	if !conv.RawEquals(v) {
+		c.Failf("value-mismatch", "read back %#v, want %#v", conv, v)
+	}
+	c.Done(f.escape || f.keyword || f.nonIdentKey || f.bigNum || f.fracNum, v.GoString())
+}
+
+func FuzzC11_Value(f *testing.F) { hx.Fuzz(f, "C11", "Value", caseC11Value) }
 
 // identifiers valid per hclsyntax/spec.md: ID_Start (ID_Continue | '-')*
 var identPool = []string{"a", "b", "foo", "bar_1", "x-y", "a-", "_x", "for", "in", "if", "null", "true", "false", "\u00e9t\u00e9", "\u65e5\u672c", "A1", "endif", "x--y", "e1", "inf", "nan"}
